@@ -684,9 +684,12 @@ def c6_rearm(fb, rep, clause='C10.6'):
         for b, i, e in st.events():
             if _writes_field(e, 'optionsSetFinished'):
                 g = G.guards_of(st, set(st.blocks), b)
-                pend = lambda n_: (lambda t: (('v', 1 if n_ == 0 else 0) if cname(t).split('::')[-1] == 'empty' else ('v', n_) if cname(t).split('::')[-1] == 'size' else None)
-                                   if t.get('k') == 'call' and t.get('recv') is not None and 'map' in ((t['recv'].get('t') or '') + (t['recv'].get('rc') or '')) else None)
-                ok = G.excluded_under(st, b, pend(2)) and not G.excluded_under(st, b, pend(0))
+                # per queue object (the member, or the local it was swapped into): excluded while it holds something, reachable when empty
+                is_q = lambda t: t.get('k') == 'call' and t.get('recv') is not None and 'map' in ((t['recv'].get('t') or '') + (t['recv'].get('rc') or ''))
+                recvs = {ap(n_['recv']) or show(n_['recv']) for c_, _s in G.guard_trees(st, set(st.blocks), b) for n_ in walk(c_) if isinstance(n_, dict) and is_q(n_)}
+                pend = lambda r_, n_: (lambda t: (('v', 1 if n_ == 0 else 0) if cname(t).split('::')[-1] == 'empty' else ('v', n_) if cname(t).split('::')[-1] == 'size' else None)
+                                       if is_q(t) and (ap(t['recv']) or show(t['recv'])) == r_ else None)
+                ok = any(all(G.excluded_under(st, b, pend(r_, k_)) for k_ in (1, 2, 9)) and not G.excluded_under(st, b, pend(r_, 0)) for r_ in recvs)
                 rep.ob(clause, 'K4 guard', 'setOptions declares the options applied only when none is pending', ok, R.site(st, e), 'guards %s' % g, st.sname)
         exits = _loop_exit_guards(st)
         # the only way out is the return inside the empty test
